@@ -14,9 +14,9 @@ var untimedAssumptions = []string{
 
 func init() {
 	checks["C01"] = func(prop, tier string) int {
-		p := []plan{{"all1", 30}, {"rep2-d3", 30}, {"part2-d4", 40}, {"rep3-d3", 135}, {"crash3-d2", 67}, {"net3-d2", 30}, {"regained5-d2", 70}, {"slowapply3-d2", 30}, {"filecrash3-d2", 30}, {"revote3-d2", 30}}
+		p := []plan{{"all1", 30}, {"rep2-d3", 30}, {"part2-d4", 40}, {"rep3-d3", 135}, {"crash3-d2", 67}, {"net3-d2", 30}, {"regained5-d2", 70}, {"slowapply3-d2", 30}, {"filecrash3-d2", 30}, {"revote3-d2", 30}, {"regainedelect5-d2", 60}}
 		if tier == "thorough" {
-			p = []plan{{"all1", 10}, {"all2", 150}, {"revote3-d4", 300}, {"rep2-d5", 100}, {"rep3-d4", 500}, {"crash3-d3", 300}, {"net3-d3", 120}, {"lead3-d3", 300}, {"rep4-d3", 150}, {"rep5-d2", 60}, {"crash5-d2", 120}, {"part2-d5", 100}, {"part3-d3", 400}, {"part4-d3", 400}, {"regained5-d3", 300}, {"stale5-d3", 300}, {"slowapply3-d3", 400}, {"filecrash3-d3", 300}}
+			p = []plan{{"regainedelect5-d3", 400}, {"all1", 10}, {"all2", 150}, {"revote3-d4", 300}, {"rep2-d5", 100}, {"rep3-d4", 500}, {"crash3-d3", 300}, {"net3-d3", 120}, {"lead3-d3", 300}, {"rep4-d3", 150}, {"rep5-d2", 60}, {"crash5-d2", 120}, {"part2-d5", 100}, {"part3-d3", 400}, {"part4-d3", 400}, {"regained5-d3", 300}, {"stale5-d3", 300}, {"slowapply3-d3", 400}, {"filecrash3-d3", 300}}
 		}
 		sp := []schedPlan{{"sched-rep3", 2, 60}}
 		if tier == "thorough" {
@@ -25,9 +25,9 @@ func init() {
 		return clusterCheckSched(prop, tier, p, []string{"leader_present", "op_applied_on_2plus_nodes", "restarted_node_up", "op_acked"}, untimedAssumptions, nil, sp)
 	}
 	checks["C02"] = func(prop, tier string) int {
-		p := []plan{{"elect2-d3", 30}, {"elect3-d3", 92}, {"elect4-d2", 35}, {"split3-d3", 30}, {"crash3-d2", 67}, {"crash2-d3", 50}, {"part2-d4", 40}, {"filesplit3-d2", 30}, {"filecrash3-d2", 30}, {"revote3-d2", 30}}
+		p := []plan{{"elect2-d3", 30}, {"elect3-d3", 92}, {"elect4-d2", 35}, {"split3-d3", 30}, {"crash3-d2", 67}, {"crash2-d3", 50}, {"part2-d4", 40}, {"filesplit3-d2", 30}, {"filecrash3-d2", 30}, {"revote3-d2", 30}, {"elect4-d3", 80}, {"crash2-d4", 50}}
 		if tier == "thorough" {
-			p = []plan{{"revote3-d4", 300}, {"elect2-d5", 100}, {"elect3-d4", 500}, {"elect4-d3", 300}, {"elect5-d2", 120}, {"split3-d4", 200}, {"crash3-d3", 300}, {"crash2-d4", 150}, {"crash4-d2", 100}, {"filesplit3-d3", 200}, {"filecrash3-d3", 300}}
+			p = []plan{{"revote3-d4", 300}, {"elect2-d6", 200}, {"elect4-d4", 600}, {"elect5-d3", 400}, {"split3-d6", 300}, {"elect3-d4", 500}, {"elect4-d3", 300}, {"elect5-d2", 120}, {"split3-d4", 200}, {"crash3-d3", 300}, {"crash2-d4", 150}, {"crash4-d2", 100}, {"filesplit3-d3", 200}, {"filecrash3-d3", 300}}
 		}
 		sp := []schedPlan{{"sched-elect3", 2, 60}}
 		if tier == "thorough" {
@@ -47,9 +47,9 @@ func init() {
 		return clusterCheckSched(prop, tier, p, []string{"leader_present", "two_leaders_different_terms", "op_acked"}, untimedAssumptions, nil, sp)
 	}
 	checks["C03"] = func(prop, tier string) int {
-		p := []plan{{"cli3-d2", 35}, {"rep3-d3", 135}, {"net3-d2", 30}, {"pending3-d2", 40}, {"regainedelect5-d2", 60}, {"stoprestart3-d2", 30}, {"slowapply3-d2", 30}}
+		p := []plan{{"cli3-d2", 35}, {"rep3-d3", 135}, {"net3-d2", 30}, {"pending3-d2", 40}, {"regainedelect5-d2", 60}, {"stoprestart3-d2", 30}, {"slowapply3-d2", 30}, {"nvwrite5-d3", 30}}
 		if tier == "thorough" {
-			p = []plan{{"cli3-d3", 200}, {"cli3-d4", 600}, {"rep3-d4", 500}, {"net3-d3", 120}, {"all2", 150}, {"rep4-d3", 150}, {"regainedelect5-d3", 400}, {"stoprestart3-d3", 200}, {"slowapply3-d3", 400}}
+			p = []plan{{"cli3-d3", 200}, {"cli3-d4", 600}, {"rep3-d4", 500}, {"net3-d3", 120}, {"all2", 150}, {"rep4-d3", 150}, {"regainedelect5-d3", 400}, {"stoprestart3-d3", 200}, {"slowapply3-d3", 400}, {"nvwrite5-d5", 200}}
 		}
 		sp := []schedPlan{{"sched-rep3", 2, 60}}
 		if tier == "thorough" {
@@ -69,9 +69,9 @@ func init() {
 		return clusterCheckSched(prop, tier, p, []string{"leader_present", "op_acked", "restarted_node_up", "node_down"}, untimedAssumptions, nil, sp)
 	}
 	checks["C05"] = func(prop, tier string) int {
-		p := []plan{{"deposed3-d2", 30}, {"read3-d3", 60}, {"nvread5-d2", 100}, {"minread5-d2", 30}}
+		p := []plan{{"deposed3-d3", 60}, {"read3-d4", 90}, {"nvread5-d3", 60}, {"minread5-d3", 30}}
 		if tier == "thorough" {
-			p = []plan{{"deposed3-d4", 600}, {"read3-d4", 600}, {"deposed3-d3", 120}, {"nvread5-d3", 300}, {"minread5-d4", 200}}
+			p = []plan{{"deposed3-d4", 600}, {"deposed3-d5", 900}, {"read3-d5", 600}, {"nvread5-d5", 300}, {"minread5-d5", 300}}
 		}
 		sp := []schedPlan{{"read-newleader", 2, 40}}
 		if tier == "thorough" {
@@ -101,20 +101,20 @@ func init() {
 		return clusterCheckSched(prop, tier, p, []string{"leader_present", "restarted_node_up"}, append([]string{"HANDLER suites hv*: one real node booted from preloaded storage, two puppet peers, every event sequence up to 4 (quick) / 5 (thorough) steps over RequestVote/AppendEntries/InstallSnapshot injections (terms T-1..T+1, both candidates, older/equal/newer logs, prevote or real, clock elapsed or not), own timeouts, every answer to its own requests, crash at quiescent points and armed at storage-call boundaries, restart"}, untimedAssumptions...), nil, sp)
 	}
 	checks["C09"] = func(prop, tier string) int {
-		p := []plan{{"mem1-d3", 30}, {"mem2-d2", 32}, {"mem3-d2", 60}, {"memlead3-d2", 80}, {"nvsnaplease4-d3", 40}, {"nvlease5-d2", 30}}
+		p := []plan{{"mem1-d4", 40}, {"mem2-d3", 50}, {"mem3-d2", 60}, {"memlead3-d2", 80}, {"nvsnaplease4-d3", 40}, {"nvlease5-d4", 30}, {"memsnap3-d2", 70}}
 		if tier == "thorough" {
-			p = []plan{{"mem1-d4", 100}, {"mem2-d3", 300}, {"mem3-d3", 500}, {"memlead3-d3", 700}, {"nvsnaplease4-d4", 300}, {"nvlease5-d4", 200}}
+			p = []plan{{"mem1-d5", 200}, {"mem2-d4", 400}, {"mem3-d3", 500}, {"mem3-d4", 900}, {"memlead3-d3", 700}, {"nvsnaplease4-d5", 400}, {"nvlease5-d5", 200}}
 		}
 		sp := []schedPlan{{"mem-race", 2, 40}}
 		if tier == "thorough" {
 			sp = []schedPlan{{"mem-race", 3, 300}}
 		}
-		return clusterCheckSched(prop, tier, p, []string{"leader_present", "op_acked", "config_changed"}, append([]string{"suites nvsnaplease4 / nvlease5 (timed, lease reads at a leader that reaches only non-voting members): a non-voter must not contribute to a leadership confirmation; reported here as C17/..."}, untimedAssumptions...), []string{"C01", "C02", "C07", "C17"}, sp)
+		return clusterCheckSched(prop, tier, p, []string{"leader_present", "op_acked", "config_changed"}, append([]string{"suites nvsnaplease4 / nvlease5 (timed, lease reads at a leader that reaches only non-voting members): a non-voter must not contribute to a leadership confirmation; reported here as C17/...", "suite memsnap3 (membership changes with snapshots): a snapshot must carry the configuration committed at its label, otherwise a node restored from it applies a configuration sequence of its own (reported here as C10/snapshot-wrong-configuration)"}, untimedAssumptions...), []string{"C01", "C02", "C07", "C17", "C10:snapshot-wrong-configuration"}, sp)
 	}
 	checks["C16"] = func(prop, tier string) int {
-		p := []plan{{"sticky3r0-d2", 50}, {"sticky3r1-d2", 50}, {"sticky3r2-d2", 50}, {"rejoin3r0-d3", 30}, {"rejoin3r1-d2", 30}, {"rejoin3r2-d2", 30}, {"stickysnap3-d3", 30}, {"contested3r0-d2", 30}, {"removed3-d3", 30}}
+		p := []plan{{"sticky3r0-d3", 60}, {"sticky3r1-d2", 50}, {"sticky3r2-d2", 50}, {"rejoin3r0-d4", 30}, {"rejoin3r1-d4", 30}, {"rejoin3r2-d4", 30}, {"stickysnap3-d4", 30}, {"contested3r0-d3", 30}, {"contested3r1-d3", 30}, {"contested3r2-d3", 30}, {"removed3-d4", 30}}
 		if tier == "thorough" {
-			p = []plan{{"sticky3r0-d3", 400}, {"sticky3r1-d3", 400}, {"sticky3r2-d3", 400}, {"rejoin3r0-d4", 400}, {"rejoin3r1-d4", 400}, {"rejoin3r2-d4", 400}, {"stickysnap3-d4", 300}, {"contested3r0-d3", 200}, {"contested3r1-d3", 200}, {"contested3r2-d3", 200}, {"removed3-d4", 200}}
+			p = []plan{{"sticky3r0-d4", 500}, {"sticky3r1-d4", 500}, {"sticky3r2-d4", 500}, {"rejoin3r0-d5", 300}, {"rejoin3r1-d5", 300}, {"rejoin3r2-d5", 300}, {"stickysnap3-d6", 300}, {"contested3r0-d5", 300}, {"contested3r1-d5", 300}, {"contested3r2-d5", 300}, {"removed3-d6", 300}}
 		}
 		return clusterCheck(prop, tier, p, []string{"leader_present", "minority_campaigned", "node_down"}, []string{
 			"timed mode: global clock in heartbeat intervals (election timeout 6, lease 2), messages are delivered within the interval unless a link is cut; election timeouts staggered per node, all rotations enumerated",
@@ -122,9 +122,9 @@ func init() {
 			"horizon 36 intervals (6 election timeouts); deviation bound per suite"})
 	}
 	checks["C17"] = func(prop, tier string) int {
-		p := []plan{{"lease3-d2", 42}, {"cutlease3-d2", 30}, {"cutlease3-d3", 100}, {"minlease5-d2", 30}, {"nvlease5-d2", 30}, {"laglease3-d3", 30}, {"nvsnaplease4-d3", 40}}
+		p := []plan{{"lease3-d3", 80}, {"cutlease3-d3", 100}, {"minlease5-d3", 30}, {"nvlease5-d4", 30}, {"laglease3-d4", 30}, {"nvsnaplease4-d3", 40}}
 		if tier == "thorough" {
-			p = []plan{{"lease3-d3", 600}, {"cutlease3-d4", 600}, {"minlease5-d3", 300}, {"nvlease5-d4", 200}, {"laglease3-d4", 200}, {"nvsnaplease4-d4", 300}}
+			p = []plan{{"lease3-d4", 900}, {"cutlease3-d4", 600}, {"cutlease3-d5", 900}, {"minlease5-d5", 300}, {"nvlease5-d6", 300}, {"laglease3-d6", 300}, {"nvsnaplease4-d5", 400}}
 		}
 		sp := []schedPlan{{"lease-newleader", 2, 40}}
 		if tier == "thorough" {
@@ -136,7 +136,7 @@ func init() {
 			"at most one outstanding read per node; horizon 14-30 intervals; deviation bound per suite"}, nil, sp)
 	}
 	checks["C15"] = func(prop, tier string) int {
-		p := []plan{{"live-rep3-d2", 160}, {"live-mem3-d2", 55}, {"live-bigsnap3-d2", 95}, {"live-snap3-d1", 35}, {"live-termgap3-d2", 40}, {"live-readd3-d2", 30}, {"live-eager3-d2", 40}, {"live-mem1-d3", 30}}
+		p := []plan{{"live-rep3-d2", 160}, {"live-mem3-d2", 55}, {"live-bigsnap3-d2", 95}, {"live-snap3-d1", 35}, {"live-termgap3-d2", 40}, {"live-readd3-d2", 30}, {"live-eager3-d2", 40}, {"live-mem1-d3", 30}, {"live-rep3all-d2", 150}, {"live-mem3all-d2", 90}}
 		if tier == "thorough" {
 			p = []plan{{"live-rep3all-d2", 400}, {"live-rep3-d3", 500}, {"live-mem3all-d2", 200}, {"live-mem3-d3", 400}, {"live-bigsnap3all-d2", 300}, {"live-bigsnap3-d3", 400}, {"live-snap3all-d2", 400}, {"live-snap3-d3", 400}, {"live-termgap3-d3", 200}, {"live-readd3-d3", 200}, {"live-eager3-d3", 300}, {"live-mem1-d4", 200}}
 		}
